@@ -274,6 +274,8 @@ def add_case(family, desc, p):
         post.append("}")
         c.post = post
     CASES.append(c)
+    if "default" not in p:
+        INTEROP.append((c, p))
 
 
 def build():
@@ -387,6 +389,169 @@ def write():
         print("  %s: %d" % (fam, len([c for c in CASES if c.family == fam])))
 
 
+# ---- C04: generated client writer -> generated server binder, per operation ------------------------
+
+INT_VOCAB = [0, 1, -1, 3, 5, 7, 10, 2147483647]
+NUM_VOCAB = [0.0, 0.5, 2.5, 3.0, 7.0, 6.999, 1e21]
+
+
+def interop_case(c_name, desc, p):
+    """Go statements of one round trip; returns list of lines"""
+    L = []
+    loc = p["in"]
+    required = p.get("required", False)
+    allow_empty = p.get("allowEmptyValue", False)
+    wide = {"int": "int64", "num": "float64", "str": "string", "bool": "bool"}
+    L.append("name := %s" % json.dumps(c_name + " (" + desc + ")"))
+    L.append("cp := cops.New%sParams()" % c_name)
+    L.append("cp.P = *new(%s) // forget the defaults: the value under test is set below" % ("[]" + gotype(p["items"]) if p["type"] == "array" else ("*" if (not required and not allow_empty) else "") + gotype(p)))
+    kind_loc = {"query": "query", "header": "header", "formData": "form", "path": "path"}[loc]
+
+    def scalar_value(s, tag):
+        k = kind_of(s)
+        gt = gotype(s)
+        if k == "int":
+            v = "iv" + tag
+            L.append("%s := []int64{%s}[vChoice(%s, %d)]" % (v, ", ".join(str(x) for x in INT_VOCAB), json.dumps("value" + tag), len(INT_VOCAB)))
+            if gt.startswith("uint"):
+                L.append("vAssume(%s >= 0)" % v)
+            return v, "%s(%s)" % (gt, v), k
+        if k == "num":
+            v = "fv" + tag
+            L.append("%s := []float64{%s}[vChoice(%s, %d)]" % (v, ", ".join(repr(x) for x in NUM_VOCAB), json.dumps("value" + tag), len(NUM_VOCAB)))
+            if gt == "float32":
+                L.append("%s = float64(float32(%s))" % (v, v))
+            return v, "%s(%s)" % (gt, v), k
+        if k == "bool":
+            v = "bv" + tag
+            L.append("%s := vBool(%s)" % (v, json.dumps("value" + tag)))
+            return v, v, k
+        v = "sv" + tag
+        L.append("%s := vBytes(%s, 3)" % (v, json.dumps("value" + tag)))
+        if not s.get("allowEmptyValue"):
+            L.append("vAssume(len(%s) > 0) // an empty text and an absent parameter are not told apart on the wire" % v)
+        return v, v, k
+
+    if p["type"] != "array":
+        v, conv, k = scalar_value(p, "")
+        valid = scalar_constraints(p, v, k)
+        pointer = (not required) and (not allow_empty)
+        if pointer:
+            L.append('set := vBool("set")')
+            L.append("if set {")
+            L.append("\tt := %s" % conv)
+            L.append("\tcp.P = &t")
+            L.append("}")
+        else:
+            L.append("set := true")
+            L.append("cp.P = %s" % conv)
+        L.append("vAssume(vOr(!set, %s)) // only values the spec allows" % valid)
+        L.append("req := vNewCapture()")
+        L.append('vAssert(cp.WriteToRequest(req, nil) == nil, name+": the client fails to write a valid parameter")')
+        L.append("raw, has := req.get(%s, \"p\")" % json.dumps(kind_loc))
+        if loc in ("header", "path"):
+            L.append("has = true")
+        L.append("o := New%sParams()" % c_name)
+        L.append("err := o.bindP(raw, has, nil)")
+        L.append('vCover("interop")')
+        L.append('vAssert(err == nil, name+": the server rejects what the client sent for a valid value")')
+        L.append("if err == nil && set {")
+        if pointer:
+            L.append('\tvAssert(o.P != nil && %s(*o.P) == %s, name+": the handler does not get the value the client was given")' % (wide[k], v))
+        else:
+            L.append('\tvAssert(%s(o.P) == %s, name+": the handler does not get the value the client was given")' % (wide[k], v))
+        L.append("}")
+        return L
+    items = p["items"]
+    fmt = p.get("collectionFormat", "")
+    k = kind_of(items)
+    L.append('n := vInt("n", 0, 2)')
+    vals = []
+    for i in range(2):
+        v, conv, _ = scalar_value(items, str(i))
+        if k == "str" and fmt != "multi":
+            L.append("vAssume(vNoneOf(%s, %s))" % (v, json.dumps(",| \t\n\r\v\f")))
+        vals.append((v, conv))
+    L.append("if n > 0 {")
+    L.append("\tcp.P = %s{}" % ("[]" + gotype(items)))
+    for i, (v, conv) in enumerate(vals):
+        L.append("\tif n > %d {" % i)
+        L.append("\t\tcp.P = append(cp.P, %s)" % conv)
+        L.append("\t}")
+    L.append("}")
+    r = []
+    for i, (v, _) in enumerate(vals):
+        r.append(OR("n <= %d" % i, scalar_constraints(items, v, k)))
+    if "minItems" in p:
+        r.append("n >= %d" % p["minItems"])
+    if "maxItems" in p:
+        r.append("n <= %d" % p["maxItems"])
+    if p.get("uniqueItems"):
+        r.append(OR("n < 2", "!vSame(%s, %s)" % (vals[0][0], vals[1][0])))
+    if required:
+        r.append("n > 0")
+    L.append("vAssume(%s) // only values the spec allows" % AND(*r))
+    L.append("req := vNewCapture()")
+    L.append('vAssert(cp.WriteToRequest(req, nil) == nil, name+": the client fails to write a valid parameter")')
+    L.append("raw, has := req.get(%s, \"p\")" % json.dumps(kind_loc))
+    if loc in ("header", "path"):
+        L.append("has = true")
+    L.append("o := New%sParams()" % c_name)
+    L.append("err := o.bindP(raw, has, nil)")
+    L.append('vCover("interop")')
+    L.append('vAssert(err == nil, name+": the server rejects what the client sent for a valid value")')
+    L.append("if err == nil {")
+    L.append('\tvAssert(len(o.P) == n, name+": the handler gets a different number of items than the client was given")')
+    for i, (v, _) in enumerate(vals):
+        L.append("\tif n > %d && len(o.P) > %d {" % (i, i))
+        L.append('\t\tvAssert(%s(o.P[%d]) == %s, name+": an item reaches the handler with a different value")' % (wide[k], i, v))
+        L.append("\t}")
+    L.append("}")
+    return L
+
+
+INTEROP = []
+
+
+def write_c04():
+    out_dir = os.path.join(ROOT, "harness", "gen", "c04", "restapi", "operations")
+    os.makedirs(out_dir, exist_ok=True)
+    fams = []
+    for (c, p) in INTEROP:
+        if c.family not in fams:
+            fams.append(c.family)
+    L = ["//go:build verif", "", "// Code generated by tools/mkgen_params.py; DO NOT EDIT.", "", "package operations", "",
+         'import cops "verifgen/client/operations"', "", "func init() {"]
+    for fam in fams:
+        L.append('\tvRegister("VerifGenInterop%s", VerifGenInterop%s)' % (fam.capitalize(), fam.capitalize()))
+    L += ["}", ""]
+    for fam in fams:
+        cs = [c for (c, p) in INTEROP if c.family == fam]
+        L.append("func VerifGenInterop%s() {" % fam.capitalize())
+        L.append('\tk := vChoice("case", %d)' % len(cs))
+        L.append('\tif st := vParam("stride"); st > 1 && k%st != vParam("offset") {')
+        L.append('\t\tvAssume(false)')
+        L.append('\t}')
+        L.append('\tswitch k {')
+        for i, c in enumerate(cs):
+            L.append("\tcase %d:" % i)
+            L.append("\t\tvInterop%s()" % c.name)
+        L.append("\t}")
+        L.append("}")
+        L.append("")
+    for (c, p) in INTEROP:
+        L.append("// %s: %s" % (c.name, c.desc))
+        L.append("func vInterop%s() {" % c.name)
+        for l in interop_case(c.name, c.desc, p):
+            L.append("\t" + l)
+        L.append("}")
+        L.append("")
+    with open(os.path.join(out_dir, "zz_verif_interop.go"), "w") as f:
+        f.write("\n".join(L))
+    print("wrote %d interop cases" % len(INTEROP))
+
+
 if __name__ == "__main__":
     build()
     write()
+    write_c04()
